@@ -33,6 +33,8 @@ impl BucketSegmentWriter {
             bincode::encode_to_vec(BucketSegmentHeader::new(bucket_id)?, BINCODE_CONFIG)?;
         writer.file().write_all_at(&header_bytes, 0)?;
         writer.file().sync_data()?;
+        #[cfg(feature = "verif")]
+        seglog::verif::point("fsync:create", seglog::verif::fd_of(writer.file()), 0);
 
         Ok(BucketSegmentWriter { writer })
     }
